@@ -1,6 +1,8 @@
 // C07 driver: runs the REAL dense solvers of /repo on matrices given as data and prints verdict + solution.
 //   L : LUSolve::exe (run-time sized matrix / vector)        T : TinyMatrixSolve<N,double,false>::exe (N = 1..8)
 //   I : TinyMatrixInvert<N,double>::exe (N = 1..6), prints the inverse row-major
+//   M : TinyMatrixSolve<N,double,false>::exe(m, tmatrix<N,2>&, eps), the matrix right-hand side overload (b: N x 2 row-major)
+//   Q : QRDecomp::exe + tq_product + back_substitute (run-time sized matrix / vector, default eps)
 #include <cmath>
 #include <cstdio>
 #include <cstdlib>
@@ -17,6 +19,7 @@
 #include "TFEL/Math/LUSolve.hxx"
 #include "TFEL/Math/TinyMatrixSolve.hxx"
 #include "TFEL/Math/TinyMatrixInvert.hxx"
+#include "TFEL/Math/QR/QRDecomp.hxx"
 
 static void out(const std::string& id, bool ok, const std::vector<double>& x) {
   std::printf("R %s %d %zu", id.c_str(), ok ? 1 : 0, x.size());
@@ -37,6 +40,15 @@ void tiny(const std::string& id, char kind, const std::vector<double>& a, const 
     for (unsigned short i = 0; i < N; ++i) v(i) = b[i];
     const bool ok = tfel::math::TinyMatrixSolve<N, double, false>::exe(m, v, eps);
     if (ok) for (unsigned short i = 0; i < N; ++i) r.push_back(v(i));
+    out(id, ok, r);
+  } else if (kind == 'M') {
+    tfel::math::tmatrix<N, 2, double> B;
+    for (unsigned short i = 0; i < N; ++i)
+      for (unsigned short k = 0; k < 2; ++k) B(i, k) = b[2 * i + k];
+    const bool ok = tfel::math::TinyMatrixSolve<N, double, false>::exe(m, B, eps);
+    if (ok)
+      for (unsigned short i = 0; i < N; ++i)
+        for (unsigned short k = 0; k < 2; ++k) r.push_back(B(i, k));
     out(id, ok, r);
   } else {
     bool ok = true;
@@ -59,7 +71,7 @@ int main(int argc, char** argv) {
     std::string id, kind;
     int n;
     is >> id >> kind >> n;
-    std::vector<double> a(n * n), b(n);
+    std::vector<double> a(n * n), b(kind == "M" ? 2 * n : n);
     std::string tok;
     for (auto& x : a) { is >> tok; x = std::strtod(tok.c_str(), nullptr); }
     for (auto& x : b) { is >> tok; x = std::strtod(tok.c_str(), nullptr); }
@@ -75,6 +87,24 @@ int main(int argc, char** argv) {
       bool ok = true;
       try {
         tfel::math::LUSolve::exe(m, v);
+      } catch (std::exception&) {
+        ok = false;
+      }
+      std::vector<double> r;
+      if (ok) for (int i = 0; i < n; ++i) r.push_back(v(i));
+      out(id, ok, r);
+    } else if (kind == "Q") {
+      tfel::math::matrix<double> m(n, n);
+      tfel::math::vector<double> v(n), rdiag(n), beta(n);
+      for (int i = 0; i < n; ++i) {
+        v(i) = b[i];
+        for (int j = 0; j < n; ++j) m(i, j) = a[n * i + j];
+      }
+      bool ok = true;
+      try {
+        tfel::math::QRDecomp::exe(m, rdiag, beta);
+        tfel::math::QRDecomp::tq_product(v, m, beta);
+        tfel::math::QRDecomp::back_substitute(v, m, rdiag);
       } catch (std::exception&) {
         ok = false;
       }
